@@ -585,20 +585,16 @@ func rulePR3(c *Ctx) *rule {
 					continue
 				}
 				cond, pol := normCond(iff.Cond, true)
-				call, ok := cond.(*ssa.Call)
-				if !ok || !strings.HasSuffix(calleeName(call.Common()), "token.Token).Is") {
-					continue
-				}
-				if n, ok := constInt(call.Common().Args[1]); !ok || n != errTok {
+				k, eqWhenTrue, ok := tokenTypeTest(cond)
+				if !ok || k != errTok {
 					continue
 				}
 				hasErrArm = true
 				idx := 0
-				if !pol {
+				if pol != eqWhenTrue {
 					idx = 1
 				}
-				rs := reach(b.Succs[idx], nil, nil)
-				if !rs[l.header] {
+				if rs := reach(b.Succs[idx], nil, nil); !rs[l.header] || !feasiblyReaches(fi, edge{b, idx}, l.header) {
 					leaves = true
 				}
 			}
@@ -618,9 +614,9 @@ func rulePR3(c *Ctx) *rule {
 					}
 					if iff, ok := lastInstr(b).(*ssa.If); ok {
 						cond, pol := normCond(iff.Cond, true)
-						if call, ok := cond.(*ssa.Call); ok && strings.HasSuffix(calleeName(call.Common()), "token.Token).Is") {
-							// take the edge on which Is(...) is false
-							if pol {
+						if _, eqWhenTrue, ok := tokenTypeTest(cond); ok {
+							// take the edge on which the token is not of the tested type
+							if pol == eqWhenTrue {
 								b = b.Succs[1]
 							} else {
 								b = b.Succs[0]
@@ -653,55 +649,94 @@ func rulePR3(c *Ctx) *rule {
 // ---- C15 ----------------------------------------------------------------------------------------------------------------------
 
 // mayBeEmpty: the string value can be "" on some path (conservatively true when unknown).
-func (c *Ctx) mayBeEmpty(v ssa.Value, at *ssa.Return, seen map[ssa.Value]bool) bool {
+// mayBeEmpty: can the string value be ""? sure tells whether a "yes" is backed by a witness (an explicit "" constant, or a
+// builder none of whose writes is certain while every one of them is visible); a "yes" without it only means the analysis
+// cannot follow how the string is built (writes inside loops, a builder handed to other code).
+func (c *Ctx) mayBeEmpty(v ssa.Value, at *ssa.Return, seen map[ssa.Value]bool) (may bool, sure bool) {
 	if seen[v] {
-		return false
+		return false, true
 	}
 	seen[v] = true
 	switch x := v.(type) {
 	case *ssa.Const:
 		s, ok := constString(x)
-		return !ok || s == ""
+		return !ok || s == "", true
 	case *ssa.Phi:
+		may, sure = false, true
 		for _, e := range x.Edges {
-			if c.mayBeEmpty(e, at, seen) {
-				return true
+			m, s := c.mayBeEmpty(e, at, seen)
+			if m && s {
+				return true, true
+			}
+			if m {
+				may, sure = true, false
 			}
 		}
-		return false
+		return may, sure
 	case *ssa.BinOp:
 		if x.Op == token.ADD {
-			return c.mayBeEmpty(x.X, at, seen) && c.mayBeEmpty(x.Y, at, seen)
+			m1, s1 := c.mayBeEmpty(x.X, at, seen)
+			m2, s2 := c.mayBeEmpty(x.Y, at, seen)
+			return m1 && m2, s1 && s2
 		}
 	case *ssa.Call:
 		n := calleeName(x.Common())
 		if n == "(*strings.Builder).String" || n == "(*bytes.Buffer).String" {
 			// non-empty if a WriteString of a non-empty constant on the same builder dominates
 			recv := x.Common().Args[0]
+			fi := c.info(x.Parent())
+			visible := true
 			for _, site := range callSites(x.Parent()) {
-				wn := calleeName(site.Common())
-				if wn != "(*strings.Builder).WriteString" && wn != "(*bytes.Buffer).WriteString" {
+				onBuilder := false
+				for _, a := range site.Common().Args {
+					if sameCell(a, recv) {
+						onBuilder = true
+					}
+				}
+				if !onBuilder {
 					continue
 				}
-				if !sameOrigins(site.Common().Args[0], recv) && site.Common().Args[0] != recv {
+				wn := calleeName(site.Common())
+				if wn != "(*strings.Builder).WriteString" && wn != "(*bytes.Buffer).WriteString" {
+					if site != ssa.CallInstruction(x) && !strings.HasSuffix(wn, ").String") && !strings.HasSuffix(wn, ").Len") {
+						visible = false // written by other means (WriteByte, Fprintf, a helper that takes the builder)
+					}
 					continue
 				}
 				if s, ok := constString(site.Common().Args[1]); ok && s != "" && before(site, x) {
-					return false
+					return false, true
+				}
+				if fi.innermostLoop(site.Block()) != nil {
+					visible = false // how often a write in a loop happens is not known here
 				}
 			}
-			return true
+			return true, visible
 		}
 		if f := x.Common().StaticCallee(); f != nil && inModule(f) && f.Name() == "String" {
+			may, sure = false, true
 			for _, ret := range returnsOf(f) {
-				if c.mayBeEmpty(ret.Results[0], ret, seen) {
-					return true
+				m, s := c.mayBeEmpty(ret.Results[0], ret, seen)
+				if m && s {
+					return true, true
+				}
+				if m {
+					may, sure = true, false
 				}
 			}
-			return false
+			return may, sure
 		}
 	}
-	return true
+	return true, false
+}
+
+// sameCell: the two addresses name the same variable: identical, same origins, or the same field of the same cell.
+func sameCell(a, b ssa.Value) bool {
+	if a == b || sameOrigins(a, b) {
+		return true
+	}
+	fa, ok1 := a.(*ssa.FieldAddr)
+	fb, ok2 := b.(*ssa.FieldAddr)
+	return ok1 && ok2 && fa.Field == fb.Field && sameCell(fa.X, fb.X)
 }
 
 func (c *Ctx) appendedNodeTypes() map[string]ssa.CallInstruction {
@@ -716,6 +751,9 @@ func (c *Ctx) appendedNodeTypes() map[string]ssa.CallInstruction {
 				t := o.Type()
 				if mi, ok := a.(*ssa.MakeInterface); ok {
 					t = mi.X.Type()
+				}
+				if _, isIface := t.Underlying().(*types.Interface); isIface {
+					continue // the nil node of a failing path
 				}
 				if n := namedOf(t); n != nil && n.Obj().Pkg() != nil && n.Obj().Pkg().Path() == modPath+"/ast" {
 					out[n.Obj().Name()] = site
@@ -747,9 +785,12 @@ func ruleFM1(c *Ctx) *rule {
 		}
 		for i, ret := range returnsOf(f) {
 			key := fmt.Sprintf("ast.%s.String return#%d", n, i+1)
-			if c.mayBeEmpty(ret.Results[0], ret, map[ssa.Value]bool{}) {
+			switch may, sure := c.mayBeEmpty(ret.Results[0], ret, map[ssa.Value]bool{}); {
+			case may && sure:
 				r.bad(key, c.ipos(ret), "this return can yield the empty string: the node disappears from the formatted text")
-			} else {
+			case may:
+				r.undecided(key, c.ipos(ret), "cannot follow how the returned string is built (writes in loops or by other code): neither a certain non-empty fragment nor an empty result was found")
+			default:
 				r.ok(key, c.ipos(ret), "always prints at least a constant, non-empty fragment")
 			}
 		}
@@ -942,20 +983,21 @@ func ruleFM3(c *Ctx) *rule {
 		Necessity: "zero appends lose a comment or statement, two duplicate it; both change what the formatter writes back"}
 	appendM := c.method("ast", "Tree", "Append")
 	var parse *ssa.Function
+	var appendAt *ssa.BasicBlock
 	for _, site := range c.callersOf(appendM) {
 		f := site.Parent()
 		if fnPkgPath(f) == modPath+"/parser" && c.info(f).innermostLoop(site.Block()) != nil {
-			parse = f
+			parse, appendAt = f, site.Block()
 		}
 	}
 	if parse == nil {
 		lost("no parser function appends to the tree inside a loop")
 	}
 	fi := c.info(parse)
-	// the outermost loop
+	// the outermost loop around the append
 	var l *loopInfo
-	for _, x := range fi.loops {
-		if x.depth == 0 {
+	for _, x := range fi.loopsContaining(appendAt) {
+		if l == nil {
 			l = x
 		}
 	}
@@ -1009,6 +1051,153 @@ func ruleFM3(c *Ctx) *rule {
 	return r
 }
 
+// tokenTypeTest recognises a test of a token's type against a constant: X.Is(K), or X.Type ==/!= K. eqWhenTrue tells whether
+// the condition being true means the token is of type K.
+func tokenTypeTest(cond ssa.Value) (k int64, eqWhenTrue bool, ok bool) {
+	if call, isCall := cond.(*ssa.Call); isCall && strings.HasSuffix(calleeName(call.Common()), "token.Token).Is") && len(call.Common().Args) == 2 {
+		if n, isC := constInt(call.Common().Args[1]); isC {
+			return n, true, true
+		}
+		return 0, false, false
+	}
+	bo, isB := cond.(*ssa.BinOp)
+	if !isB || (bo.Op != token.EQL && bo.Op != token.NEQ) {
+		return 0, false, false
+	}
+	for _, pair := range [][2]ssa.Value{{bo.X, bo.Y}, {bo.Y, bo.X}} {
+		n, isC := constInt(pair[1])
+		if !isC {
+			continue
+		}
+		for _, o := range origins(pair[0]) {
+			var key string
+			switch x := o.(type) {
+			case *ssa.UnOp:
+				key = fieldKey(x.X)
+			case *ssa.Field:
+				key = fieldKey(x)
+			}
+			if key == "token.Token.Type" {
+				return n, bo.Op == token.EQL, true
+			}
+		}
+	}
+	return 0, false, false
+}
+
+// ---- FM5: a parsed comment is never dropped ---------------------------------------------------------------------------------------
+
+func ruleFM5(c *Ctx) *rule {
+	r := &rule{ID: "FM5", Engine: "E2+E3", Floor: 1,
+		Statement: "on every path from a call of parseComment that does not end in an error, the comment it returned is appended to the tree or handed to parseTask as the docstring",
+		Necessity: "a comment that was parsed and then neither appended nor attached is missing from the tree, so the formatter writes the file back without it"}
+	parseComment := c.methodOpt("parser", "Parser", "parseComment")
+	parseTask := c.method("parser", "Parser", "parseTask")
+	appendM := c.method("ast", "Tree", "Append")
+	if parseComment == nil {
+		r.undecided("parser parseComment", "-", "the parser has no parseComment method")
+		return r
+	}
+	for i, site := range c.callersOf(parseComment) {
+		call, ok := site.(*ssa.Call)
+		if !ok {
+			continue
+		}
+		f := site.Parent()
+		fi := c.info(f)
+		key := fmt.Sprintf("%s parseComment#%d conserved", fname(f), i+1)
+		sinkArgs := func(in ssa.Instruction) []ssa.Value {
+			cs, ok := in.(ssa.CallInstruction)
+			if !ok {
+				return nil
+			}
+			switch cs.Common().StaticCallee() {
+			case appendM:
+				return cs.Common().Args[1:]
+			case parseTask:
+				if len(cs.Common().Args) > 1 {
+					return cs.Common().Args[1:2]
+				}
+			}
+			return nil
+		}
+		// which node is appended is followed along the path (a helper's result phi is resolved to the operand of this path)
+		for _, cs := range callSites(f) {
+			for _, a := range sinkArgs(cs) {
+				registerControlValue(a, cs)
+				if mi, isMI := a.(*ssa.MakeInterface); isMI {
+					registerControlValue(mi.X, cs)
+				}
+			}
+		}
+		keeps := func(in ssa.Instruction, ps *pathState) bool {
+			for _, a := range sinkArgs(in) {
+				v := ps.resolve(a)
+				if mi, isMI := v.(*ssa.MakeInterface); isMI {
+					v = ps.resolve(mi.X)
+				}
+				sl := c.newSlicer()
+				sl.depth = 0
+				if sl.run(v).has(call) {
+					return true
+				}
+			}
+			return false
+		}
+		loop := fi.innermostLoop(call.Block())
+		seen := map[string]bool{}
+		bad := ""
+		var dfs func(b *ssa.BasicBlock, idx int, ps *pathState)
+		dfs = func(b *ssa.BasicBlock, idx int, ps *pathState) {
+			if bad != "" {
+				return
+			}
+			if idx == 0 {
+				k := fmt.Sprintf("%d|%s", b.Index, ps.key())
+				if seen[k] {
+					return
+				}
+				seen[k] = true
+			}
+			for _, in := range b.Instrs[idx:] {
+				if keeps(in, ps) {
+					return
+				}
+				if ret, isRet := in.(*ssa.Return); isRet {
+					if ev := returnedErr(ret); ev == nil || ps.mayBeNil(ev) {
+						bad = "the comment is dropped on a path that returns without error at " + c.ipos(ret)
+					}
+					return
+				}
+			}
+			for i2, s := range b.Succs {
+				_, _, next, feasible := ps.branch(b, i2)
+				if !feasible {
+					continue
+				}
+				if loop != nil && s == loop.header && loop.body[b] {
+					bad = "the comment is dropped on a way round the parse loop ending at " + c.bpos(b)
+					return
+				}
+				dfs(s, 0, next.enter(s, b))
+			}
+		}
+		pos := 0
+		for k, in := range call.Block().Instrs {
+			if in == ssa.Instruction(call) {
+				pos = k + 1
+			}
+		}
+		dfs(call.Block(), pos, newPathStateFor(f).seedFromGuards(call.Block()))
+		if bad == "" {
+			r.ok(key, c.ipos(call), "appended or attached as a docstring on every path that does not fail")
+		} else {
+			r.bad(key, c.ipos(call), bad)
+		}
+	}
+	return r
+}
+
 func parseProperties() []*propertySpec {
 	return []*propertySpec{
 		{ID: "C08", Title: "Parsing any input terminates, deterministically, with a tree or located error",
@@ -1020,7 +1209,7 @@ func parseProperties() []*propertySpec {
 			Explanation: "FM1 proves by a may-be-empty analysis over the SSA form of every String() method of the node types the parser appends (Comment, Assign, Task) that no return path prints the empty string, and that Tree.Write prints every node once, in order; FM2 proves by edge dominance that a parsed comment becomes a docstring only under the guard that the very next token is the task keyword, is never carried over from another iteration, and that Task.String prints it before the keyword; FM3 proves by path enumeration that every way round the parse loop appends exactly one node.",
 			NotCovered:  []string{"preservation of the comment text itself and of order (value-level)", "comments inside task bodies (the lexer rejects them)"},
 			Assumptions: []string{"docstring = comment immediately followed by the task keyword (parser definition)"},
-			Rules:       []func(*Ctx) *rule{ruleFM1, ruleFM2, ruleFM3, ruleFM4}},
+			Rules:       []func(*Ctx) *rule{ruleFM1, ruleFM2, ruleFM3, ruleFM4, ruleFM5}},
 	}
 }
 
